@@ -30,7 +30,17 @@ impl WorldDir {
     pub fn res(&self) -> PathBuf {
         self.base.join("res")
     }
+    /// private temporary directory of this world's nodes (see node::private_tmpdir)
+    pub fn tmpdir(&self) -> PathBuf {
+        let name = self.base.file_name().map(|s| s.to_string_lossy().into_owned()).unwrap_or_else(|| "w".into());
+        std::env::temp_dir().join(format!("verif-sim-{}", std::process::id())).join(name)
+    }
     pub fn reset(&self) {
+        // whatever a killed node left in its temporary directory must not leak into the next scenario
+        let t = self.tmpdir();
+        if t.exists() {
+            remove_tree(&t);
+        }
         let r = self.root();
         if r.exists() {
             remove_tree(&r);
